@@ -16,11 +16,19 @@ goes to the one (cold) store.  Reads run on thread pools (`rayon`): the theorems
   number (0 when `retain` kept nothing).
 * repair index (`commands/repair/index.rs`): `warm_up_wait(pack_read_header ids)`, then `PackHeader::from_file` per
   pack: `read_partial(Pack, id, false, ..)` once, and once more when the size hint was too small (`reads` ∈ {1, 2}).
+  `pack_read_header = checker.into_pack_to_read()` (`packReadHeader`, on the `PackChecker` model of `Model/Index.lean`:
+  `repairFile` / `checkOne` = the loop over the index files with `check_pack`) is, in this order,
+    `fromIndex`  — the packs queued by `check_pack`: listed by the repository AND by an index file whose size for the pack
+                   differs from the listed size, or any such pack with `read_all`;  followed by
+    `unindexed`  — the packs the repository lists that NO index entry claimed (`self.packs` after all `remove`s): lost /
+                   removed index files, packs of an interrupted backup.  They are appended only by `into_pack_to_read()`;
+  the warm-up argument is the WHOLE list (`repairIndexRun`), so also the un-indexed packs are requested before their read.
 * check --read-data (`commands/check.rs`): `warm_up_wait(packs)` (after the subset filter), then `read_full(Pack, id)` each.
 * repair hotcold (`commands/repair/hotcold.rs correct_missing_files`): `warm_up_wait(missing_hot)`, then `read_full` of each
   from `repo.be_cold` directly.
 -/
 import Rustic.Model.RestoreWalk
+import Rustic.Model.Index
 namespace Rustic.WarmUp
 
 /-- what the stores see -/
@@ -85,6 +93,30 @@ def repairIndexCmd (toRead : List (Nat × Nat)) : Cmd :=
   { warm := toRead.map (·.1)
     reads := toRead.flatMap (fun x => List.replicate x.2 (Call.partialRead x.1 false)) }
 
+/-- the `PackChecker` after the loop over all index files of `repair_index` (`check_pack` per file); `store` = the pack
+listing `be.list_with_size(Pack)` as (id, size) -/
+def checkerAfter (store : List (Nat × Nat)) (files : List Rustic.Index.IndexFile) (readAll : Bool) : Rustic.Index.RepairAcc :=
+  files.foldl (Rustic.Index.repairFile readAll) { remaining := store, toRead := [], out := [] }
+
+/-- `checker.packs_to_read` BEFORE `into_pack_to_read()`: (id, size hint, listed size) of the packs an index entry sent to a
+header re-read (size mismatch, or `read_all`) -/
+def fromIndex (store : List (Nat × Nat)) (files : List Rustic.Index.IndexFile) (readAll : Bool) : List (Nat × Option Nat × Nat) :=
+  (checkerAfter store files readAll).toRead
+
+/-- the packs the repository lists that no index entry claimed (`self.packs` when `into_pack_to_read` runs) -/
+def unindexed (store : List (Nat × Nat)) (files : List Rustic.Index.IndexFile) (readAll : Bool) : List (Nat × Nat) :=
+  (checkerAfter store files readAll).remaining
+
+/-- `pack_read_header = checker.into_pack_to_read()`: the packs from the index needing a re-read, then the packs in the
+repository but in no index (no size hint) -/
+def packReadHeader (store : List (Nat × Nat)) (files : List Rustic.Index.IndexFile) (readAll : Bool) : List (Nat × Option Nat × Nat) :=
+  fromIndex store files readAll ++ (unindexed store files readAll).map (fun e => (e.1, none, e.2))
+
+/-- `repair_index` on a repository state: warm-up of all of `pack_read_header`, then `nreads x` (1 or 2) header reads of each -/
+def repairIndexRun (store : List (Nat × Nat)) (files : List Rustic.Index.IndexFile) (readAll : Bool)
+    (nreads : Nat × Option Nat × Nat → Nat) : List (Nat × Nat) :=
+  (packReadHeader store files readAll).map (fun x => (x.1, nreads x))
+
 def checkReadDataCmd (packs : List Nat) : Cmd :=
   { warm := packs, reads := packs.map Call.full }
 
@@ -96,6 +128,8 @@ inductive Command where
   | restore (hole limit : Nat) (r : Rustic.RestoreWalk.RInfo)
   | prune (indexFiles : List (List PPack))
   | repairIndex (toRead : List (Nat × Nat))
+  | repairIndexOn (store : List (Nat × Nat)) (files : List Rustic.Index.IndexFile) (readAll : Bool)
+      (nreads : Nat × Option Nat × Nat → Nat)
   | checkReadData (packs : List Nat)
   | repairHotcold (missingHot : List Nat)
 
@@ -103,6 +137,7 @@ def cmdOf : Command → Cmd
   | .restore hole limit r => restoreCmd hole limit r
   | .prune idx => pruneCmd idx
   | .repairIndex t => repairIndexCmd t
+  | .repairIndexOn store files readAll nreads => repairIndexCmd (repairIndexRun store files readAll nreads)
   | .checkReadData ps => checkReadDataCmd ps
   | .repairHotcold m => repairHotcoldCmd m
 
